@@ -1,6 +1,7 @@
 import EduceModel.Expand
 import EduceModel.Gen.PartialEq
 import EduceModel.Gen.Hash
+import EduceModel.Gen.Clone
 /-
   C11 — automatic bounds are exactly those the generated code needs.
 -/
@@ -120,5 +121,166 @@ theorem companion_applies_iff (holds : String → Bool) (w : List String) (prima
   intro it hit
   unfold applies
   rw [companion_same_predicates primary comp traits it hit]
+
+
+
+/-! ### the same link for enum arms (tuple and named variants) and for Hash -/
+
+/-- tuple-variant arm of PartialEq: the delegated calls operate on the binders of exactly the delegated positions -/
+theorem eq_tuple_arm_delegates_exactly (fas : List (Field × CmpFieldAttr)) (i : Nat) :
+    neOperands (Gen.PartialEq.armStmts Gen.PartialEq.bindTupSelf Gen.PartialEq.bindTupOther i (fas.map toEqField))
+      = (delegatedIdx i fas).map fun j => Ref.var (tupSelf j) := by
+  induction fas generalizing i with
+  | nil => rfl
+  | cons fa rest ih =>
+    obtain ⟨f, a⟩ := fa
+    simp only [List.map_cons, Gen.PartialEq.armStmts, toEqField, delegatedIdx, Gen.PartialEq.bindTupSelf, Gen.PartialEq.bindTupOther]
+    by_cases hig : a.ignore = true
+    · simp [hig, ih]
+    · simp only [hig, Bool.false_eq_true, if_false, Bool.false_or]
+      unfold Gen.PartialEq.stmt
+      cases hm : a.method with
+      | none => simp [neOperands, ih]
+      | some m => simp [neOperands, ih]
+
+/-- named-variant arm: the operands are the `_s_<field>` binders of the delegated fields, in order -/
+def delegatedNames : List (Field × CmpFieldAttr) → List Ident
+  | [] => []
+  | (f, a) :: rest => if a.ignore || a.method.isSome then delegatedNames rest else (f.name.getD "").toList :: delegatedNames rest
+
+theorem eq_named_arm_delegates_exactly (fas : List (Field × CmpFieldAttr)) (i : Nat) :
+    neOperands (Gen.PartialEq.armStmts Gen.PartialEq.bindNamedSelf Gen.PartialEq.bindNamedOther i (fas.map toEqField))
+      = (delegatedNames fas).map fun n => Ref.var (namedSelf n) := by
+  induction fas generalizing i with
+  | nil => rfl
+  | cons fa rest ih =>
+    obtain ⟨f, a⟩ := fa
+    simp only [List.map_cons, Gen.PartialEq.armStmts, toEqField, delegatedNames, Gen.PartialEq.bindNamedSelf, Gen.PartialEq.bindNamedOther]
+    by_cases hig : a.ignore = true
+    · simp [hig, ih]
+    · simp only [hig, Bool.false_eq_true, if_false, Bool.false_or]
+      unfold Gen.PartialEq.stmt
+      cases hm : a.method with
+      | none => simp [neOperands, ih]
+      | some m => simp [neOperands, ih]
+
+/-- names and types of the delegated fields go together -/
+theorem delegatedNames_types (fas : List (Field × CmpFieldAttr)) :
+    (delegatedNames fas).length = (delegatedTypes fas).length := by
+  induction fas with
+  | nil => rfl
+  | cons fa rest ih =>
+    obtain ⟨f, a⟩ := fa
+    unfold delegatedTypes at ih ⊢
+    simp only [delegatedNames, List.filterMap_cons]
+    split <;> simp [ih]
+
+/-! Hash -/
+
+def toHashField (fa : Field × CmpFieldAttr) : HashField :=
+  { name := (fa.1.name.getD "").toList, ignore := fa.2.ignore, method := fa.2.method.map fun _ => 0 }
+
+/-- Operands of the calls to the field type's own `Hash::hash`. -/
+def hashOperands : List HashStmt → List Ref
+  | [] => []
+  | .builtin r :: rest => r :: hashOperands rest
+  | .method _ _ :: rest => hashOperands rest
+
+theorem hash_struct_body_delegates_exactly (fas : List (Field × CmpFieldAttr)) (i : Nat) :
+    hashOperands (Gen.Hash.structStmts i (fas.map toHashField)) = (delegatedIdx i fas).map Ref.selfField := by
+  induction fas generalizing i with
+  | nil => rfl
+  | cons fa rest ih =>
+    obtain ⟨f, a⟩ := fa
+    simp only [List.map_cons, Gen.Hash.structStmts, toHashField, delegatedIdx]
+    by_cases hig : a.ignore = true
+    · simp [hig, ih]
+    · simp only [hig, Bool.false_eq_true, if_false, Bool.false_or]
+      unfold Gen.Hash.stmt
+      cases hm : a.method with
+      | none => simp [hashOperands, ih]
+      | some m => simp [hashOperands, ih]
+
+theorem hash_tuple_arm_delegates_exactly (fas : List (Field × CmpFieldAttr)) (i : Nat) :
+    hashOperands (Gen.Hash.armStmts Gen.Hash.bindTup i (fas.map toHashField))
+      = (delegatedIdx i fas).map fun j => Ref.var (tupSelf j) := by
+  induction fas generalizing i with
+  | nil => rfl
+  | cons fa rest ih =>
+    obtain ⟨f, a⟩ := fa
+    simp only [List.map_cons, Gen.Hash.armStmts, toHashField, delegatedIdx, Gen.Hash.bindTup]
+    by_cases hig : a.ignore = true
+    · simp [hig, ih]
+    · simp only [hig, Bool.false_eq_true, if_false, Bool.false_or]
+      unfold Gen.Hash.stmt
+      cases hm : a.method with
+      | none => simp [hashOperands, ih]
+      | some m => simp [hashOperands, ih]
+
+theorem hash_named_arm_delegates_exactly (fas : List (Field × CmpFieldAttr)) (i : Nat) :
+    hashOperands (Gen.Hash.armStmts Gen.Hash.bindNamed i (fas.map toHashField))
+      = (delegatedNames fas).map fun n => Ref.var (namedV n) := by
+  induction fas generalizing i with
+  | nil => rfl
+  | cons fa rest ih =>
+    obtain ⟨f, a⟩ := fa
+    simp only [List.map_cons, Gen.Hash.armStmts, toHashField, delegatedNames, Gen.Hash.bindNamed]
+    by_cases hig : a.ignore = true
+    · simp [hig, ih]
+    · simp only [hig, Bool.false_eq_true, if_false, Bool.false_or]
+      unfold Gen.Hash.stmt
+      cases hm : a.method with
+      | none => simp [hashOperands, ih]
+      | some m => simp [hashOperands, ih]
+
+/-- The handler computes the predicates of PartialEq / Hash from exactly `delegatedTypes` of every variant:
+    what `eqLikeHandler` calls `types`. -/
+theorem eqLike_types_are_delegated (vs : List (Variant × List (Field × CmpFieldAttr))) :
+    (vs.flatMap fun (_, fas) => fas.filterMap fun (f, a) => if a.ignore || a.method.isSome then none else some f.ty)
+      = vs.flatMap fun p => delegatedTypes p.2 := rfl
+
+
+
+/-! Clone: the types collected for the `Clone` predicates are those of the fields cloned by the field type's own
+    `Clone::clone` (and `clone_from`), not of the fields handled by a custom method. -/
+
+def toCloneField (fa : Field × CloneFieldAttr) : CloneField :=
+  { name := (fa.1.name.getD "").toList, method := fa.2.method.map fun _ => 0 }
+
+def cloneOperands : List CloneExpr → List Ref
+  | [] => []
+  | .builtin r :: rest => r :: cloneOperands rest
+  | .method _ _ :: rest => cloneOperands rest
+
+def cfOperands : List CFStmt → List Ref
+  | [] => []
+  | .builtin d _ :: rest => d :: cfOperands rest
+  | .assign _ _ _ :: rest => cfOperands rest
+
+def cloneDelegatedIdx : Nat → List (Field × CloneFieldAttr) → List Nat
+  | _, [] => []
+  | i, (_, a) :: rest => if a.method.isSome then cloneDelegatedIdx (i + 1) rest else i :: cloneDelegatedIdx (i + 1) rest
+
+def cloneDelegatedTypes (fas : List (Field × CloneFieldAttr)) : List String :=
+  fas.filterMap fun (f, a) => if a.method.isSome then none else some f.ty
+
+theorem clone_struct_body_delegates_exactly (fas : List (Field × CloneFieldAttr)) (i : Nat) :
+    cloneOperands (Gen.Clone.structExprs i (fas.map toCloneField)) = (cloneDelegatedIdx i fas).map Ref.selfField ∧
+    cfOperands (Gen.Clone.structCF i (fas.map toCloneField)) = (cloneDelegatedIdx i fas).map Ref.selfField := by
+  induction fas generalizing i with
+  | nil => exact ⟨rfl, rfl⟩
+  | cons fa rest ih =>
+    obtain ⟨f, a⟩ := fa
+    obtain ⟨h1, h2⟩ := ih (i + 1)
+    simp only [List.map_cons, Gen.Clone.structExprs, Gen.Clone.structCF, toCloneField, cloneDelegatedIdx]
+    unfold Gen.Clone.expr Gen.Clone.cfStmt
+    cases hm : a.method with
+    | none => simp [cloneOperands, cfOperands, h1, h2]
+    | some m => simp [cloneOperands, cfOperands, h1, h2]
+
+/-- what `cloneHandler` calls `types` -/
+theorem clone_types_are_delegated (vs : List (Variant × List (Field × CloneFieldAttr))) :
+    (vs.flatMap fun (_, fas) => fas.filterMap fun (f, a) => if a.method.isSome then none else some f.ty)
+      = vs.flatMap fun p => cloneDelegatedTypes p.2 := rfl
 
 end Educe.Attr
